@@ -54,10 +54,7 @@ PickAny ==
 \* selections at the full precision of the numeric type.  A case is <<b1, b2, b3, b4, idx>>: base = sum b_i 2^(16 (i - 1)) is the raw output minus
 \* four units 2^ushift; Q = floor(x S / 2^64) for x = base and x = base + 8 units by a carry chain over the 16-bit limbs; channel i owns x / 2^64
 \* iff it is the first with Cum(w, i) > Q.  Within four units of a boundary (the two ends disagree) either neighbour is admissible.
-QOf(b, S, o, add) ==
-    LET C[i \in 0 .. 4] == IF i = 0 THEN 0 ELSE (b[i] * S + C[i - 1] + (IF i = o + 1 THEN add ELSE 0)) \div 65536
-    IN C[4]
-FirstAbove(w, q) == LET c == {i \in 1 .. Len(w) : Cum(w, i) > q} IN IF c = {} THEN 0 ELSE CHOOSE i \in c : \A k \in c : i <= k   \* (0: beyond one)
+QOf(b, S, o, add) == LimbQ(SubSeq(b, 1, 4), S, o, add, 65536)
 PickWide ==
     /\ l <= TraceLen
     /\ LET e == TheTrace[l]
